@@ -2,7 +2,7 @@
    Every generator is a pure function of the numbers drawn; theorems are about the exact-rational
    instance of coq/C18/Model.v unless they quantify over the index list itself. *)
 From Coq Require Import ZArith QArith List Bool.
-From QE Require Import Base.Num Base.Cases C16.Model C05.Model C18.Model C18.Proofs.
+From QE Require Import Base.Num Base.Cases C16.Model C16.Proofs2 C05.Model C18.Model C18.Proofs C18.Proofs2.
 Import ListNotations.
 Local Open Scope Q_scope.
 
@@ -100,9 +100,7 @@ Print Assumptions C18_unit_vector_spec.
 (* tournament_game payoff kernels, PARTIAL: entry c of node i's row is 1 exactly when c is the
    k_array_rank_jit of the image (under i's sorted out-neighbour list nb) of a position set visited by the
    next_k_array walk over [0,d), all zero when d < k; row j of the column player's matrix is the indicator of
-   the j-th array of the walk from [0..k-1].  That the walk visits every k-subset once and rank is its
-   position (hence "1 iff i dominates every node of the c-th subset") is C16's bijection statement and is
-   decided here by the oracle (independent itertools definition), not proved. *)
+   the j-th array of the walk from [0..k-1].  The full statement follows below (C18_tournament_payoff_spec). *)
 Theorem C18_tournament_payoff0_partial : forall k m nb c, (0 <= c < m)%Z ->
   let d := Z.of_nat (length nb) in
   let ranks := map (fun a => k_array_rank_jit (map (fun t => zget nb t) a))
@@ -118,14 +116,34 @@ Theorem C18_tournament_payoff1_partial : forall n k m j v, (j < Z.to_nat m)%nat 
 Proof. exact tg_payoff1_spec. Qed.
 Print Assumptions C18_tournament_payoff1_partial.
 
-Definition C18_tournament_payoff_spec_full : Prop := forall n k rs i (X : list Z),
-  (length (pairs n) <= length rs)%nat -> (i < n)%nat ->
+(* tournament_game payoffs = definition (uses C16's theorems: the next_k_array walk enumerates the k-subsets in
+   combinatorial-number-system order, rank is injective).  k_array k X: X strictly increasing, length k, X[0] >= 0.
+   Row player: entry [i][rank X] is 1 iff node i dominates (has an edge to) every node of the k-subset X, else 0;
+   column player: entry [rank X][v] is 1 iff v is in X.  Premise on Y: the int64 guard of C16 (no comb_jit product
+   overflows for k-subsets of [0,n)), satisfiable - see ex_rank_guard for the property's largest scope n=7, k=3. *)
+Theorem C18_tournament_payoff_spec : forall n k rs i X,
+  (1 <= k)%nat -> (i < n)%nat ->
+  (forall Y, k_array k Y -> (last Y 0 < Z.of_nat n)%Z -> k_array_rank_jit Y = k_array_rank Y) ->
+  k_array k X -> (last X 0 < Z.of_nat n)%Z ->
   let edges := tournament_edges n rs in
-  (* X a strictly increasing k-subset of [0,n) *)
-  length X = k -> (forall t, (t + 1 < length X)%nat -> (nth t X 0 < nth (t + 1) X 0)%Z) ->
-  Forall (fun v => (0 <= v < Z.of_nat n)%Z) X ->
-  nth (Z.to_nat (k_array_rank X)) (nth i (fst (tournament_game n k rs)) []) 0 =
-    if forallb (fun v => existsb (fun e => Nat.eqb (fst e) i && Nat.eqb (snd e) (Z.to_nat v)) edges) X then 1 else 0.
+  let c := Z.to_nat (k_array_rank X) in
+  (0 <= k_array_rank X < binomZ (Z.of_nat n) (Z.of_nat k))%Z /\
+  nth c (nth i (fst (tournament_game n k rs)) []) 0 =
+    (if forallb (fun v => existsb (fun e => Nat.eqb (fst e) i && Nat.eqb (snd e) (Z.to_nat v)) edges) X then 1 else 0) /\
+  forall v, (0 <= v < Z.of_nat n)%Z ->
+    nth (Z.to_nat v) (nth c (snd (tournament_game n k rs)) []) 0 = if existsb (Z.eqb v) X then 1 else 0.
+Proof. exact tournament_payoff_spec. Qed.
+Print Assumptions C18_tournament_payoff_spec.
+
+Example ex_rank_guard : forall Y, k_array 3 Y -> (last Y 0 < 7)%Z -> k_array_rank_jit Y = k_array_rank Y.
+Proof.
+  intros Y HY Hl.
+  destruct (k_walk_enumerates 3 7 36 ltac:(auto) ltac:(vm_compute; auto)) as [_ [Hw _]].
+  assert (Hin : In Y (k_walk 36 7 (zrange 3))) by (apply Hw; split; assumption).
+  assert (E : forallb (fun a => Z.eqb (k_array_rank_jit a) (k_array_rank a)) (k_walk 36 7 (zrange 3)) = true)
+    by (vm_compute; reflexivity).
+  rewrite forallb_forall in E. apply Z.eqb_eq. apply E. exact Hin.
+Qed.
 
 (* SGC game: the C05 model of support_enumeration applied to the model's sgc_game(k) returns exactly one
    equilibrium, uniform on the first 2k-1 actions of each player.  Finite domain in the statement (k = 1, 2),
